@@ -184,7 +184,9 @@ def r3(run, db):
         for g in preds:
             run.check(reads_pending(g), "sticky|scan-counts-queued-jobs", "the scan predicate consults the pending-key table (jobs in flight and queued)",
                       "the sticky scan looks only at jobs in flight: a key whose job waits in a worker's private queue (retained after a failed hand-over to a dying worker) looks free, its next job goes to another worker, and when the replacement takes the retained job two jobs of one key run on two workers", g.where())
-        av = [c for c in f.calls() if c.callee and c.callee.endswith("::is_available")]
+        av_ = calls_incl_closures(db, f, lambda c: bool(c.callee and c.callee.endswith("::is_available")))
+        av = [c for _s, c in av_]
+        av_site = {id(c): s_ for s_, c in av_}
         run.anchor("sticky availability tests", len(av), 2, f.where())
         if scan:
             iss = [c for c in f.calls() if c.matches(r"Option::<T>::is_some$") and any(r["k"] == "call" and r["call"].bb == scan[0].bb for r in f.origins(c.args[0], through=lambda cc: 0 if cc.matches(r"Option::<T>::map$") else None))]
@@ -193,7 +195,7 @@ def r3(run, db):
             if ne:
                 miss.append(ne)
             for c in av:
-                run.check(any(f.edge_dominates(e, c.site) for e in miss), "sticky|availability-after-scan@L%s" % ("hint" if c is av[0] else "deque"), "an availability-based choice is made only after the scan found no worker processing the key",
+                run.check(any(f.edge_dominates(e, av_site[id(c)]) for e in miss), "sticky|availability-after-scan@L%s" % ("hint" if c is av[0] else "deque"), "an availability-based choice is made only after the scan found no worker processing the key",
                           "a worker can be chosen by availability before the pool was scanned for the key: two jobs of one key can run on two workers at once", c.where())
         # early hint acceptance only on is_processing_key
         ipk = [c for c in f.calls() if c.callee and re.search(r"::(is_processing_key|has_pending_key)$", c.callee)]
